@@ -210,6 +210,17 @@ CLAIMED: dict[str, tuple[str, str, str, str, str]] = {
         "Trusted: TLC; the step-counting coroutine wrapper; recording in-memory inner transports. Server-side client close paths are covered by "
         "the server checks. Known finding F9 is listed in known_findings.json.",
     ),
+    "C15": (
+        "model_checking",
+        "TLA+ spec StreamServer (what the request handler of one connection may observe) model-checked by TLC; hook logs of the real "
+        "AsyncTCPNetworkServer (low-level AsyncStreamServer + build_lowlevel_stream_server_handler + server-side client) on an in-memory listener in "
+        "virtual time, under seeded request streams / chunkings / delays / handler shapes, validated by TLC against StreamServerTrace",
+        "DESIGN.md section 7 (C15)",
+        "TLC proves on the model that requests and parse errors reach the generators in stream order exactly once across restarts, that a timeout "
+        "is only thrown when no complete request waits, that generators are closed once; every recorded connection of the real server is decided "
+        "against that specification event by event (request identity, error position, timeout duration, closing sequence).",
+        "Trusted: TLC; the in-memory listener/transport; the virtual-time loop. Bounds: 1-5 requests per connection, one connection per scenario.",
+    ),
 }
 
 NOT_YET = "check not built yet in this revision of /verif (planned: see DESIGN.md section 0); not claimed until its check exists"
